@@ -403,6 +403,142 @@ fn case(ctx: &mut Ctx, index: u64, rng: &mut Rng) {
     let _ = net_release;
 }
 
+/// The configured method timeout: real time (the library's timer lives in the async-io reactor thread), so this class
+/// alternates scheduler steps with short sleeps. Verdicts: a call answered in time succeeds; an unanswered call fails with
+/// a timed-out error NOT EARLIER than the timeout (timers never fire early) and within 300x the timeout; a reply that
+/// arrives after its call timed out disturbs nothing; the connection keeps working.
+fn timeout_case(ctx: &mut Ctx, index: u64, rng: &mut Rng) {
+    use std::time::{Duration, Instant};
+    ctx.count("evaluations", 1);
+    ctx.count("class:method-timeout", 1);
+    let wire = Wire::new(rng.next_u64());
+    let mut sched = Sched::new(Rng::new(rng.next_u64()));
+    let tmo = Duration::from_millis(*rng.pick(&[40u64, 60, 100]));
+    let out: Slot<zbus::Result<zbus::Connection>> = slot();
+    let o2 = out.clone();
+    let sock = wire.socket();
+    let t = sched.spawn("build", async move {
+        let r = async { zbus::connection::Builder::authenticated_socket(sock, zbus::Guid::try_from(GUID).unwrap())?.p2p().internal_executor(false).method_timeout(tmo).build().await }.await;
+        *o2.borrow_mut() = Some(r);
+    });
+    sched.run_until_done(t);
+    let conn = match out.borrow_mut().take() {
+        Some(Ok(c)) => c,
+        other => {
+            ctx.finding(index, "harness-or-hang", "-", "connect", json!({"error": format!("{:?}", other.map(|r| r.map(|_| ())))}));
+            return;
+        }
+    };
+    sched.add_executor(conn.executor().clone());
+    let w2 = wire.clone();
+    sched.add_net(Box::new(move || w2.release_one()));
+    let mut peer = RawPeer::new(&wire);
+    let n = 2 + rng.usize_below(5);
+    // which calls the peer answers in time / late / never
+    let fates: Vec<u8> = (0..n).map(|_| rng.below(3) as u8).collect();
+    let results: Rc<RefCell<Vec<Option<(Result<u32, String>, Duration)>>>> = Rc::new(RefCell::new(vec![None; n]));
+    let start = Instant::now();
+    for k in 0..n {
+        let (c, r) = (conn.clone(), results.clone());
+        sched.spawn(&format!("caller-{k}"), async move {
+            let t0 = Instant::now();
+            let res = c.call_method(None::<&str>, "/t", Some("t.T"), "M", &(k as u32,)).await;
+            let v = match res {
+                Ok(m) => m.body().deserialize::<u32>().map_err(|e| format!("body: {e}")),
+                Err(zbus::Error::InputOutput(e)) if e.kind() == std::io::ErrorKind::TimedOut => Err("timed-out".to_string()),
+                Err(e) => Err(format!("other: {e}")),
+            };
+            r.borrow_mut()[k] = Some((v, t0.elapsed()));
+        });
+    }
+    sched.run_to_quiescence();
+    // the peer sees the calls; answer the in-time ones now
+    let calls = peer.pump();
+    let mut serial_of: HashMap<u32, u32> = HashMap::new();
+    for c in &calls {
+        if let Some(Val::U(k)) = c.msg.body.first() {
+            serial_of.insert(*k, c.msg.serial);
+        }
+    }
+    if serial_of.len() != n {
+        ctx.finding(index, "calls-not-sent", "-", "method-timeout", json!({"sent": serial_of.len(), "expected": n}));
+        return;
+    }
+    for k in 0..n {
+        if fates[k] == 0 {
+            let s = peer.serial();
+            peer.send(&Msg::method_return(s, serial_of[&(k as u32)]).with_body(vec![Val::U(1000 + k as u32)]), vec![], &[]);
+        }
+    }
+    // real time passes: alternate scheduling and short sleeps until every caller is done (bounded at 300x the timeout)
+    let bound = tmo * 300;
+    loop {
+        sched.run_to_quiescence();
+        if results.borrow().iter().all(|r| r.is_some()) {
+            break;
+        }
+        if start.elapsed() > bound + Duration::from_secs(5) {
+            break;
+        }
+        std::thread::sleep(Duration::from_millis(3));
+    }
+    let desc = json!({"timeout_ms": tmo.as_millis() as u64, "fates(0=answered,1=late,2=never)": fates, "results": results.borrow().iter().map(|r| format!("{r:?}")).collect::<Vec<_>>()});
+    for k in 0..n {
+        ctx.count("calls_checked", 1);
+        let r = results.borrow()[k].clone();
+        match (fates[k], r) {
+            (0, Some((Ok(v), _))) if v == 1000 + k as u32 => {}
+            (0, other) => {
+                ctx.finding(index, "answered-call-did-not-succeed", "-", "method-timeout", json!({"call": k, "result": format!("{other:?}"), "case": desc}));
+                return;
+            }
+            (_, None) => {
+                ctx.finding(index, "unanswered-call-still-pending-300x-after-the-timeout", "-", "method-timeout", json!({"call": k, "case": desc}));
+                return;
+            }
+            (_, Some((Err(e), took))) if e == "timed-out" => {
+                ctx.count("class:timed-out-call", 1);
+                if took + Duration::from_millis(2) < tmo {
+                    ctx.finding(index, "timeout-fired-early", "-", "method-timeout", json!({"call": k, "took_ms": took.as_millis() as u64, "case": desc}));
+                    return;
+                }
+            }
+            (_, Some(other)) => {
+                ctx.finding(index, "unanswered-call-completed-otherwise", "-", "method-timeout", json!({"call": k, "result": format!("{other:?}"), "case": desc}));
+                return;
+            }
+        }
+    }
+    // late replies for calls that already timed out, then a fresh call that is answered: nothing may be disturbed
+    for k in 0..n {
+        if fates[k] == 1 {
+            let s = peer.serial();
+            peer.send(&Msg::method_return(s, serial_of[&(k as u32)]).with_body(vec![Val::U(1000 + k as u32)]), vec![], &[]);
+            ctx.count("class:late-reply-after-timeout", 1);
+        }
+    }
+    sched.run_to_quiescence();
+    let fresh: Slot<Result<u32, String>> = slot();
+    let (f2, c2) = (fresh.clone(), conn.clone());
+    sched.spawn("fresh-caller", async move {
+        let r = c2.call_method(None::<&str>, "/t", Some("t.T"), "M", &(777u32,)).await;
+        *f2.borrow_mut() = Some(r.map_err(|e| e.to_string()).and_then(|m| m.body().deserialize::<u32>().map_err(|e| e.to_string())));
+    });
+    sched.run_to_quiescence();
+    if let Some(c) = peer.pump().iter().find(|c| c.msg.body.first() == Some(&Val::U(777))) {
+        let s = peer.serial();
+        peer.send(&Msg::method_return(s, c.msg.serial).with_body(vec![Val::U(4242)]), vec![], &[]);
+    }
+    sched.run_to_quiescence();
+    let fr = fresh.borrow().clone();
+    if fr != Some(Ok(4242)) {
+        ctx.finding(index, "call-after-timeouts-did-not-succeed", "-", "method-timeout", json!({"result": format!("{fr:?}"), "case": desc}));
+        return;
+    }
+    ctx.distinct(sched.fingerprint() ^ index);
+    ctx.sample(desc);
+}
+
 pub fn run(ctx: &mut Ctx) {
     let n = ctx.budget(3000, 150_000);
     for i in 0..n {
@@ -411,5 +547,15 @@ pub fn run(ctx: &mut Ctx) {
         }
         let mut rng = ctx.rng(i);
         ctx.guarded(i, "calls", || json!({}), |ctx| case(ctx, i, &mut rng));
+    }
+    // method timeout (real time; not under Miri, which has no reactor thread to speak of)
+    let m = ctx.budget(if ctx.args.layer == "miri" { 0 } else { 120 }, 3_000);
+    for j in 0..m {
+        let i = 6_000_000_000 + j;
+        if !ctx.want(i) {
+            continue;
+        }
+        let mut rng = ctx.rng(i);
+        ctx.guarded(i, "method-timeout", || json!({}), |ctx| timeout_case(ctx, i, &mut rng));
     }
 }
